@@ -1,6 +1,30 @@
 """Per-property configuration of tools/check.py."""
 
 PROPS = {
+    "C12": {
+        "modules": ["BioSeq.Props.C12"],
+        "rule": "IUPAC set-algebra op lines: all 256 symbol pairs for & and | (borrowed operators and owned bit_and/bit_or) and contains (Seq and SeqSlice impls) with the two "
+                "operands embedded at independent bit offsets; random equal-length sequences (lengths 0,1,2,15..17,31..33,random) incl. sub-pattern pairs, all kinds of length "
+                "mismatch, complement, Dna->Iupac conversion from offset slices; distinct = distinct line",
+    },
+    "C20": {
+        "modules": ["BioSeq.Props.C20"],
+        "rule": "masking op lines: every symbol of both masked codecs under mask/unmask/to_mask/to_unmask, twice, composed with comp; sequences whose 5-bit symbols straddle "
+                "64-bit words (lengths 12,13,14,26,39,52 in quick, 0..55 thorough) incl. owned copies of offset slices, compositions with rev/revcomp, random values; "
+                "symbol tables extracted exhaustively and decided in Lean; distinct = distinct line",
+    },
+    "C15": {
+        "modules": ["BioSeq.Props.C15"],
+        "rule": "codon-table op lines: random maps over DNA and IUPAC codons of length 1..4 (duplicate keys, 0/1/2/3+ preimages per amino), queries for keys and non-keys "
+                "presented as slices at every offset and for mapped/unmapped aminos; each table is rebuilt 12 times in the harness (fresh RandomState, hence different HashMap "
+                "iteration orders) and any order-dependent answer is reported; distinct = distinct line",
+    },
+    "C19": {
+        "modules": ["BioSeq.Props.C19"],
+        "rule": "conversion/trim op lines: DNA->IUPAC and DNA->text from slices at every offset and owned copies (lengths 0,1,31..33,random); trim_u8 for 7 codecs on byte strings "
+                "with refused bytes at the ends and in the interior, empty, all-bad, every single byte as a delimiter; the symbol maps (incl. text->DNA on all 256 bytes) are extracted "
+                "exhaustively and decided in Lean; distinct = distinct line",
+    },
     "C16": {
         "modules": ["BioSeq.Props.C16"],
         "programs": "c16",
